@@ -455,6 +455,10 @@ impl DebugSession {
         message: Option<String>,
         body: Option<Value>,
     ) -> anyhow::Result<()> {
+        // the sequence number is taken while the transport lock is held, so that
+        // numbers appear on the wire in increasing order (output forwarders share both)
+        let io = self.io.clone();
+        let mut lock = io.lock().unwrap();
         let rsp = DapResponse {
             seq: self.next_seq(),
             r#type: "response",
@@ -465,8 +469,6 @@ impl DebugSession {
             body,
         };
         let value = serde_json::to_value(rsp)?;
-
-        let mut lock = self.io.lock().unwrap();
         lock.write_message(&value)
     }
 
@@ -480,10 +482,7 @@ impl DebugSession {
     }
 
     fn send_event_raw(&mut self, name: &'static str, body: Option<Value>) -> anyhow::Result<()> {
-        let seq = self.next_seq();
-        let mut lock = self.io.lock().unwrap();
-
-        protocol::send_event(seq, &mut *lock, name, body)
+        send_event_sequenced(&self.server_seq, &self.io, name, body)
     }
 
     fn consume_cancellation(
@@ -543,18 +542,13 @@ impl DebugSession {
                 match reader.read_line(&mut buf) {
                     Ok(0) => break,
                     Ok(_) => {
-                        let s = seq.fetch_add(1, std::sync::atomic::Ordering::Relaxed);
-
-                        {
-                            let mut lock = io.lock().unwrap();
-                            // TODO log it somehow
-                            _ = protocol::send_event(
-                                s,
-                                &mut *lock,
-                                "output",
-                                Some(json!({ "category": "stdout", "output": buf.clone() })),
-                            );
-                        }
+                        // TODO log it somehow
+                        _ = send_event_sequenced(
+                            &seq,
+                            &io,
+                            "output",
+                            Some(json!({ "category": "stdout", "output": buf.clone() })),
+                        );
                     }
                     Err(_) => break,
                 }
@@ -572,18 +566,13 @@ impl DebugSession {
                 match reader.read_line(&mut buf) {
                     Ok(0) => break,
                     Ok(_) => {
-                        let s = seq.fetch_add(1, std::sync::atomic::Ordering::Relaxed);
-
-                        {
-                            let mut lock = io.lock().unwrap();
-                            // TODO log it somehow
-                            _ = protocol::send_event(
-                                s,
-                                &mut *lock,
-                                "output",
-                                Some(json!({ "category": "stderr", "output": buf.clone() })),
-                            );
-                        }
+                        // TODO log it somehow
+                        _ = send_event_sequenced(
+                            &seq,
+                            &io,
+                            "output",
+                            Some(json!({ "category": "stderr", "output": buf.clone() })),
+                        );
                     }
                     Err(_) => break,
                 }
@@ -683,6 +672,22 @@ impl DebugSession {
         }
         Ok(())
     }
+}
+
+/// Send an event with the next sequence number.
+///
+/// The number is allocated while the transport lock is held: the session thread and the
+/// output forwarders share the counter and the transport, and a number taken before the
+/// lock could reach the wire after a later one.
+fn send_event_sequenced(
+    seq: &AtomicI64,
+    io: &Mutex<dyn DapTransport>,
+    name: &'static str,
+    body: Option<Value>,
+) -> anyhow::Result<()> {
+    let mut lock = io.lock().unwrap();
+    let seq = seq.fetch_add(1, std::sync::atomic::Ordering::Relaxed);
+    protocol::send_event(seq, &mut *lock, name, body)
 }
 
 fn parse_memory_reference(reference: &str) -> anyhow::Result<usize> {
